@@ -64,7 +64,7 @@ def run(tier, v, wd, replay=None):
         if r.violated:
             raise vlib.Infra("RelayStart.tla violates %s in the model" % r.violated)
         ls = sorted(open(part).read().splitlines())
-        keep = 3 if tier == "quick" else 1
+        keep = 6 if tier == "quick" else 1
         slines += [l for i, l in enumerate(ls) if (i + vlib.seed()) % keep == 0]
     with open(stfile, "w") as f:
         f.write("\n".join(slines) + "\n")
